@@ -17,7 +17,7 @@ func init() {
 			"a captured output is stored under the step's output name as NAME=TrimSpace(stdout), and the retry-graph reader strips exactly the NAME= prefix (C11.output-store)",
 			"every graph node (both constructors) and every handler node gets the graph's shared output map before it can execute; both process executors append the map to the child's environment (C11.output-visibility)",
 			"the writer installed as stderr does not include the capture pipe (C11.capture-is-stdout-only) — violated today, known finding F24",
-			"the capture pipe is drained by a goroutine started before cmd.Run() (C11.pipe-drained)",
+			"the capture pipe (read end = the field receiving os.Pipe()#0) is drained by a goroutine started before cmd.Run(), reading the pipe itself to EOF without closing it, into a buffer that is fresh for each execution and read only after the drain signalled completion (C11.pipe-drained)",
 			"the recorded parameter string quotes each element it joins with the parser's delimiter (C11.recorder-quotes) — violated today, known finding F22",
 		},
 		NotDec: []string{"the parameter regular expression's grammar, byte-exactness of values, shell quoting", "the process environment as the third channel (os.Setenv ordering across steps)"},
@@ -355,50 +355,280 @@ func c11Capture(e *Env) {
 		r.Check(!has, "setupExec ("+which+"): SetStderr writer excludes the output-capture pipe", e.InstrPos(ci),
 			"the writer installed as the step's stderr includes the capture pipe: what the step prints to stderr ends up in its `output:` variable")
 	}
-	r.Rule("C11.pipe-drained", "MPT/ownership", "capture pipe read by a goroutine started before Run", 1)
-	var run ssa.Instruction
-	for _, ci := range ir.CallsIn(ex, func(c *ssa.CallCommon) bool { return c.IsInvoke() && c.Method.Name() == "Run" }) {
-		run = ci
+	c11Drain(e, ex)
+}
+
+// c11Drain: the output-capture pipe, by role. The read end is whatever field
+// receives os.Pipe()'s first result; a drain is any io.Copy / ReadAll / ReadFrom
+// whose source derives from that field (through helpers, closures, wrappers).
+//
+//	a. the drain runs in a goroutine started before the executor's Run (otherwise a
+//	   step printing more than the pipe buffer blocks forever)
+//	b. it reads the pipe itself to EOF - no bounded wrapper - and does not close the
+//	   read end while the child may still write (EPIPE would cut the step's log too,
+//	   because the log and the pipe share one MultiWriter)
+//	c. it fills a buffer that is fresh for this execution (a local, or a field that
+//	   is reset before the drain starts): a retried / repeated step must not see the
+//	   previous attempt's output
+//	d. the buffer is read only after the drain has signalled completion
+func c11Drain(e *Env, ex *ssa.Function) {
+	r := e.R
+	r.Rule("C11.pipe-drained", "roles+VF+MPT", "capture pipe drained concurrently, to EOF, into a per-execution buffer, read after completion", 3)
+	sp := e.P.Pkg(schedRel)
+	var pkgFns []*ssa.Function
+	for _, f := range e.RepoFuncsSorted() {
+		if rootFn(f).Package() == sp {
+			pkgFns = append(pkgFns, f)
+		}
 	}
-	n := 0
-	for _, f := range ir.WithClosures(ex) {
-		for _, ci := range ir.CallsIn(f, func(c *ssa.CallCommon) bool { return true }) {
-			reads := false
-			for _, a := range ci.Common().Args {
-				x := a
-				if mi, ok := a.(*ssa.MakeInterface); ok {
-					x = mi.X
-				}
-				if e.IsFieldRead(x, nil, "outputReader") {
-					reads = true
-				}
-			}
-			if !reads || ir.IsCallTo(ci.Common(), "(*os.File).Close") {
+	// read end: the field os.Pipe()#0 is stored into
+	readField := ""
+	for _, f := range pkgFns {
+		for _, ci := range ir.CallsIn(f, func(c *ssa.CallCommon) bool { return ir.IsCallTo(c, "os.Pipe") }) {
+			pv, ok := ci.(ssa.Value)
+			if !ok {
 				continue
 			}
-			n++
-			ok := false
-			if f != ex && run != nil {
-				for _, b := range ex.Blocks {
-					for _, in := range b.Instrs {
-						if g, isG := in.(*ssa.Go); isG && g.Call.StaticCallee() == f {
-							// started on a path that leads to Run, and never after Run
-							toRun, _ := ir.Bypass(g, nil, ir.PathQuery{Bad: func(x ssa.Instruction) bool { return x == run }})
-							fromRun, _ := ir.Bypass(run, nil, ir.PathQuery{Bad: func(x ssa.Instruction) bool { return x == ssa.Instruction(g) }})
-							if toRun != nil && fromRun == nil {
-								ok = true
+			for _, ref := range *pv.Referrers() {
+				if ext, ok := ref.(*ssa.Extract); ok && ext.Index == 0 {
+					for _, r2 := range *ext.Referrers() {
+						if st, ok := r2.(*ssa.Store); ok {
+							if fa, ok := st.Addr.(*ssa.FieldAddr); ok {
+								readField = ir.FieldNameOf(fa.X.Type(), fa.Field)
 							}
 						}
 					}
 				}
 			}
-			r.Check(ok, "Execute: the capture pipe is read by a goroutine started before cmd.Run()", e.InstrPos(ci),
+		}
+	}
+	if readField == "" {
+		r.Unknown("capture pipe: the field holding the read end of os.Pipe()", e.Pos(ex.Pos()), "no os.Pipe() whose read end is stored into a field")
+		return
+	}
+	var run ssa.Instruction
+	for _, ci := range ir.CallsIn(ex, func(c *ssa.CallCommon) bool { return c.IsInvoke() && c.Method.Name() == "Run" }) {
+		run = ci
+	}
+	if run == nil {
+		r.Unknown("Execute: the executor's Run call", e.Pos(ex.Pos()), "not found")
+		return
+	}
+	up := func(f *ssa.Function) []ssa.CallInstruction { return e.StaticCallSites(f) }
+	wrappers := map[string]bool{"io.LimitReader": true, "io.TeeReader": true, "bufio.NewReader": true, "bufio.NewReaderSize": true, "io.NewSectionReader": true, "io.MultiReader": true}
+	wide := &ir.Tracer{C: e.C, Through: wrappers, Descend: e.repoDescend, Up: up}
+	exact := &ir.Tracer{C: e.C, Through: map[string]bool{}, Descend: e.repoDescend, Up: up}
+	isRead := func(ls []ir.Leaf) (any, all bool) {
+		all = len(ls) > 0
+		for _, l := range ls {
+			if l.Kind == "field" && strings.HasSuffix(l.Name, readField) {
+				any = true
+			} else {
+				all = false
+			}
+		}
+		return
+	}
+	n := 0
+	for _, f := range pkgFns {
+		for _, ci := range ir.CallsIn(f, func(c *ssa.CallCommon) bool {
+			return ir.IsCallTo(c, "io.Copy", "io.CopyBuffer", "io.ReadAll", "io/ioutil.ReadAll", "(*bytes.Buffer).ReadFrom", "io.CopyN")
+		}) {
+			c := ci.Common()
+			srcIdx, dstIdx := 1, 0
+			if ir.IsCallTo(c, "io.ReadAll", "io/ioutil.ReadAll") {
+				srcIdx, dstIdx = 0, -1
+			}
+			if anyRead, _ := isRead(wide.Trace(c.Args[srcIdx])); !anyRead {
+				continue
+			}
+			n++
+			// b. to EOF, unwrapped
+			_, allRead := isRead(exact.Trace(c.Args[srcIdx]))
+			r.Check(allRead && !ir.IsCallTo(c, "io.CopyN"), "capture drain: reads the pipe's read end itself until EOF", e.InstrPos(ci),
+				"the capture pipe is drained through a bounded or wrapping reader: once the bound is reached nobody reads the pipe any more, the child blocks or gets EPIPE, and - the step's log sharing one MultiWriter with the pipe - the rest of its output is lost from the log as well")
+			// a. in a goroutine started before Run
+			var g *ssa.Go
+			var gfn *ssa.Function
+			for fnc := f; fnc != nil && g == nil; fnc = fnc.Parent() {
+				for _, h := range pkgFns {
+					for _, bb := range h.Blocks {
+						for _, in := range bb.Instrs {
+							if gi, ok := in.(*ssa.Go); ok && gi.Call.StaticCallee() == fnc {
+								g, gfn = gi, fnc
+							}
+						}
+					}
+				}
+			}
+			if g == nil {
+				r.Bad("capture drain: runs in its own goroutine", e.InstrPos(ci), "the capture pipe is read synchronously: a step with `output:` that prints more than the pipe buffer (64 KiB) blocks forever")
+				continue
+			}
+			// the instruction of Execute that leads to the go statement
+			var lead ssa.Instruction
+			if rootFn(g.Parent()) == ex {
+				lead = g
+				if g.Parent() != ex {
+					lead = nil // started from a nested closure: not supported
+				}
+			} else {
+				host := rootFn(g.Parent())
+				for _, c2 := range ir.CallsIn(ex, func(cc *ssa.CallCommon) bool {
+					sc := cc.StaticCallee()
+					return sc != nil && e.reachesStatic(sc, func(x *ssa.Function) bool { return x == host })
+				}) {
+					lead = c2
+				}
+			}
+			if lead == nil {
+				r.Unknown("capture drain: started from Execute", e.InstrPos(g), "cannot relate the goroutine start to the executor's Run call")
+				continue
+			}
+			toRun, _ := ir.Bypass(lead, nil, ir.PathQuery{Bad: func(x ssa.Instruction) bool { return x == run }})
+			fromRun, _ := ir.Bypass(run, nil, ir.PathQuery{Bad: func(x ssa.Instruction) bool { return x == lead }})
+			r.Check(toRun != nil && fromRun == nil, "capture drain: the goroutine is started before cmd.Run()", e.InstrPos(g),
 				"the capture pipe is only read after the command has finished: a step with `output:` that prints more than the pipe buffer (64 KiB) blocks forever")
+			// b'. the drain goroutine does not close the read end
+			closes := false
+			for _, gf := range ir.WithClosures(gfn) {
+				for _, cl := range ir.CallsIn(gf, func(cc *ssa.CallCommon) bool { return ir.IsCallTo(cc, "(*os.File).Close") }) {
+					if anyR, _ := isRead(wide.Trace(cl.Common().Args[0])); anyR {
+						closes = true
+					}
+				}
+			}
+			r.Check(!closes, "capture drain: the read end is not closed by the draining goroutine", e.InstrPos(g),
+				"the goroutine that drains the capture pipe closes its read end: if it stops reading before EOF the child's next write fails with EPIPE and the shared MultiWriter drops the rest of the output from the step's log")
+			// c. per-execution buffer
+			if dstIdx >= 0 {
+				kind, what, site := c11Classify(e, c.Args[dstIdx], 0)
+				switch kind {
+				case "local":
+					r.OK("capture drain: fills a buffer that is fresh for each execution", e.InstrPos(ci), "", "buffer: local "+what)
+					// d. read only after completion was signalled
+					if al, ok := site.(*ssa.Alloc); ok && al.Parent() == ex {
+						okD := true
+						for _, ref := range *al.Referrers() {
+							rc, isCall := ref.(ssa.CallInstruction)
+							if !isCall || ref.Block() == nil {
+								continue
+							}
+							if _, isGo := ref.(*ssa.Go); isGo {
+								continue
+							}
+							// only reads of the buffer: its own methods other than the writing ones
+							cc := rc.Common()
+							if cc.StaticCallee() == nil || cc.Signature().Recv() == nil || len(cc.Args) == 0 || cc.Args[0] != ssa.Value(al) {
+								continue
+							}
+							switch cc.StaticCallee().Name() {
+							case "Write", "WriteString", "WriteByte", "WriteRune", "ReadFrom", "Reset", "Grow", "Truncate":
+								continue
+							}
+							recvBefore := false
+							for _, bb := range ex.Blocks {
+								for _, in := range bb.Instrs {
+									if u, isU := in.(*ssa.UnOp); isU && u.Op == token.ARROW && ir.Precedes(run, u) && ir.Precedes(u, rc) {
+										recvBefore = true
+									}
+								}
+							}
+							if !recvBefore {
+								okD = false
+							}
+						}
+						r.Check(okD, "capture buffer: read only after the drain signalled completion (channel receive after Run)", e.InstrPos(run),
+							"the captured output is read while the draining goroutine may still be copying: the stored value can miss the tail of the step's output")
+					}
+				case "field":
+					// a reset of that field must precede the goroutine start
+					reset := false
+					for _, hf := range pkgFns {
+						for _, bb := range hf.Blocks {
+							for _, in := range bb.Instrs {
+								switch x := in.(type) {
+								case *ssa.Store:
+									if fa, ok := x.Addr.(*ssa.FieldAddr); ok && ir.FieldNameOf(fa.X.Type(), fa.Field) == what && hf == g.Parent() && ir.Precedes(x, g) {
+										reset = true
+									}
+								case *ssa.Call:
+									if ir.IsCallTo(&x.Call, "(*bytes.Buffer).Reset", "(*bytes.Buffer).Truncate", "(*strings.Builder).Reset") {
+										if fa, ok := x.Call.Args[0].(*ssa.FieldAddr); ok && ir.FieldNameOf(fa.X.Type(), fa.Field) == what {
+											if (hf == g.Parent() && ir.Precedes(x, g)) || (hf == ex && ir.Precedes(x, lead)) {
+												reset = true
+											}
+										}
+									}
+								}
+							}
+						}
+					}
+					r.Check(reset, "capture drain: fills a buffer that is fresh for each execution", e.InstrPos(ci),
+						"the capture buffer is the node's field "+what+" and nothing resets it before the drain starts: a step that is executed again on the same node (retryPolicy, repeatPolicy) stores the concatenation of all attempts' output under its `output:` name", "buffer: field "+what)
+				default:
+					r.Unknown("capture drain: destination buffer", e.InstrPos(ci), "cannot classify the destination: "+what)
+				}
+			}
 		}
 	}
 	if n == 0 {
-		r.Unknown("Execute: reader of the capture pipe", e.Pos(ex.Pos()), "no read of outputReader found")
+		r.Unknown("capture pipe: a drain of the read end (field "+readField+")", e.Pos(ex.Pos()), "no io.Copy / ReadAll whose source derives from the pipe's read end")
 	}
+}
+
+// c11Classify resolves an io.Writer argument to the variable it writes into.
+func c11Classify(e *Env, v ssa.Value, depth int) (kind, what string, site ssa.Value) {
+	if depth > 6 {
+		return "unknown", "too deep", nil
+	}
+	switch x := v.(type) {
+	case *ssa.MakeInterface:
+		return c11Classify(e, x.X, depth+1)
+	case *ssa.ChangeType:
+		return c11Classify(e, x.X, depth+1)
+	case *ssa.ChangeInterface:
+		return c11Classify(e, x.X, depth+1)
+	case *ssa.Alloc:
+		return "local", x.Comment, x
+	case *ssa.FieldAddr:
+		return "field", ir.FieldNameOf(x.X.Type(), x.Field), x
+	case *ssa.UnOp:
+		if x.Op == token.MUL {
+			// a pointer kept in a cell or field
+			if fa, ok := x.X.(*ssa.FieldAddr); ok {
+				return "field", ir.FieldNameOf(fa.X.Type(), fa.Field), fa
+			}
+			st := ir.StoresTo(x.X)
+			if len(st) == 1 {
+				return c11Classify(e, st[0], depth+1)
+			}
+		}
+	case *ssa.FreeVar:
+		fn := x.Parent()
+		idx := -1
+		for i, fv := range fn.FreeVars {
+			if fv == x {
+				idx = i
+			}
+		}
+		for _, f := range e.RepoFuncsSorted() {
+			for _, b := range f.Blocks {
+				for _, in := range b.Instrs {
+					if mc, ok := in.(*ssa.MakeClosure); ok && mc.Fn == ssa.Value(fn) && idx >= 0 && idx < len(mc.Bindings) {
+						return c11Classify(e, mc.Bindings[idx], depth+1)
+					}
+				}
+			}
+		}
+	case *ssa.Parameter:
+		sites := e.StaticCallSites(x.Parent())
+		idx := paramIndex(x)
+		if len(sites) == 1 && idx >= 0 && idx < len(sites[0].Common().Args) {
+			return c11Classify(e, sites[0].Common().Args[idx], depth+1)
+		}
+	}
+	return "unknown", v.String(), nil
 }
 
 func c11Recorder(e *Env) {
